@@ -66,6 +66,10 @@ type collector struct {
 	cuts     map[int]cutSpec
 	accepted int32
 	lnWG     sync.WaitGroup
+	// dialed reports that the client's dial of connection i has returned.  A peer that goes away before the
+	// first frame waits for it: a reset that overtakes the end of the dial would turn the dial itself into
+	// an error (connection reset), which is a refused dial to the client but an accepted one to the collector.
+	dialed func(i int) bool
 }
 
 func ctl(network, address string, c syscall.RawConn) error {
@@ -136,7 +140,7 @@ func (co *collector) up() error {
 			}
 			co.mu.Unlock()
 			atomic.AddInt32(&co.accepted, 1)
-			go cr.run(cs)
+			go cr.run(cs, co.dialed)
 		}
 	}()
 	return nil
@@ -258,7 +262,7 @@ func idHint(p []byte) (ptype int, id int) {
 	return
 }
 
-func (cr *connRec) run(cs *cutSpec) {
+func (cr *connRec) run(cs *cutSpec, dialed func(int) bool) {
 	defer close(cr.done)
 	buf := make([]byte, 256<<10)
 	endErr := func(partial int, hdr []byte) {
@@ -280,6 +284,9 @@ func (cr *connRec) run(cs *cutSpec) {
 	for fi := 0; ; fi++ {
 		cutHere := cs != nil && cs.Frame == fi
 		if cutHere && cs.Where == "before" {
+			if fi == 0 && dialed != nil {
+				waitUntil(waitMax, func() bool { return dialed(cr.idx) })
+			}
 			cr.goAway(cs.Kind)
 			return
 		}
